@@ -20,6 +20,8 @@
 package asm
 
 import (
+	"strings"
+
 	"github.com/llir/ll/ast"
 	"github.com/llir/llvm/internal/enc"
 	"github.com/llir/llvm/ir"
@@ -44,8 +46,12 @@ type funcGen struct {
 }
 
 // recordExplicitID records v if ident, the local identifier given to it
-// explicitly in the input, is the local ID %0.
-func (fgen *funcGen) recordExplicitID(ident ir.LocalIdent, v interface{}) {
+// explicitly in the input (written as text), is the local ID %0. The empty
+// quoted name (e.g. `%""`) denotes an unnamed value without explicit ID.
+func (fgen *funcGen) recordExplicitID(ident ir.LocalIdent, text string, v interface{}) {
+	if strings.Contains(text, `"`) {
+		return
+	}
 	if l, ok := v.(local); ok && ident.IsUnnamed() && ident.LocalID == 0 {
 		fgen.explicitZero = append(fgen.explicitZero, l)
 	}
@@ -165,7 +171,7 @@ func (fgen *funcGen) newLocals(oldBlocks []ast.BasicBlock) error {
 		block := &ir.Block{}
 		if n, ok := oldBlock.Name(); ok {
 			block.LocalIdent = labelIdent(n)
-			fgen.recordExplicitID(block.LocalIdent, block)
+			fgen.recordExplicitID(block.LocalIdent, n.Text(), block)
 		}
 		if oldInsts := oldBlock.Insts(); len(oldInsts) > 0 {
 			block.Insts = make([]ir.Instruction, len(oldInsts))
